@@ -16,7 +16,8 @@ CHECKS = {
         "runtime monitoring: reference conformance oracle + structural-equality oracle over get_type/shrink_types on generated value multisets",
         "Every value of every explored multiset (exhaustive over a 90-value basis up to size 2/3, all dict families, seeded random "
         "beyond; k in {0,1,2,3,10,200}) is judged a member of the merged type by an independent conformance oracle, and 5 "
-        "permutations/duplications per case are compared structurally. Held = held on the executions listed in the evidence.",
+        "permutations/duplications per case are compared structurally; the same through the merge of whole traces, directly and after the "
+        "store's row encoding and back. Held = held on the executions listed in the evidence.",
         "Trusts vf/oracle/rt.py + conform.py (typing.get_origin/get_args only) and CPython 3.12.1; cyclic containers excluded.",
         "6 C04",
     ),
@@ -24,7 +25,8 @@ CHECKS = {
         "exploration",
         "runtime monitoring: witness-walk oracle (tightness) over the real inference results for generated value multisets",
         "The merged type of every explored multiset is walked in lock-step with the values: every union alternative, class, Any, "
-        "required/optional key must be witnessed. Held = on the explored multisets only.",
+        "required/optional key must be witnessed (also for the opposite observation order and for the type merged from rows decoded from the store). "
+        "Held = on the explored multisets only.",
         "Trusts vf/oracle/witness.py; same value space as C04.",
         "6 C05",
     ),
@@ -67,7 +69,8 @@ CHECKS = {
         "points, every pwrite64/fdatasync/unlink occurrence is a SIGKILL/EIO/ENOSPC point; after each the file is reopened and read "
         "through an independent connection: every batch all-or-none, acknowledged batches present, integrity_check ok; concurrent "
         "readers must never see a partial batch; commit orders are recorded; writers on fresh connections per batch; 400+-row batches "
-        "with sampled interruption points; a write lock held by another connection around the busy timeout.",
+        "with sampled interruption points; a write lock held by another connection around the busy timeout; batches handed to the shipped store "
+        "logger (log + flush) and traces that differ only in the order of a union's members (distinct rows).",
         "Crash = process kill / syscall error, not power loss; SQLite itself is trusted to implement rollback-journal recovery.",
         "6 C09",
     ),
@@ -102,7 +105,8 @@ CHECKS = {
         "allow-lists of 0..3 names (one interpreter each), and compared with an os.path oracle; generated scripts are run with "
         "`monkeytype run` under default, allow-list and custom-filter configs and the rows in the store compared with the functions "
         "admitted and called (none from __main__, none rejected, every admitted one); sessions of six tracing blocks in one interpreter "
-        "sharing a logger / Config object with a different custom filter per block: logged == called & accepted, per block.",
+        "sharing a logger / Config object with a different custom filter per block: logged == called & accepted, per block (also over the "
+        "source executed as the running script, and with modules only importlib can name).",
         "The filter reads only co_filename; sysconfig roots of this installation.",
         "6 C17",
     ),
@@ -110,7 +114,7 @@ CHECKS = {
         "exploration",
         "runtime monitoring: differential untraced/traced runs in fresh interpreters + tripwire hook journal attributing user code to monkeytype frames + fault injection into logger, type collection and function lookup; profiler/flush counters",
         "Every tripwire kind (attribute hooks, __class__ overrides, descriptors/lazy properties, container subclasses, hash/eq/bool/repr, "
-        "metaclass checks; raising and state-mutating variants) is placed in every position the tracer reads (arguments, returns, yields, "
+        "metaclass checks, builtin wrappers forwarding to program containers; raising and state-mutating variants) is placed in every position the tracer reads (arguments, returns, yields, "
         "container elements/keys/values, receivers, module globals, same-named globals, class attributes, callable locals of callers); the "
         "workload runs untraced and traced in fresh interpreters: results, stdout and the program's own hook calls must be equal and no "
         "journal entry may have a monkeytype frame on its stack. Single and double faults (log/flush/get_type/get_func raising, values whose "
@@ -123,7 +127,7 @@ CHECKS = {
         "exploration",
         "runtime monitoring: stub-text evaluator (names provided by the stub only) + structural-equality oracle over rendered module stubs built from generated CallTraces",
         "CallTraces with grammar types over classes spread across modules whose names are dotted/textual suffixes of one another, nested "
-        "classes, a class named like its module, _io types, TypedDicts at every container position (k>0), generator yields, are rendered "
+        "classes, a class named like its module, fixture modules that are targets themselves, _io types, TypedDicts at every container position (k>0), generator yields, are rendered "
         "through build_module_stubs_from_traces; every annotation string is evaluated with only the stub's imports, class definitions, "
         "builtins and the target's own classes and must equal the handed-in type structurally (source annotations with spelled-out callable "
         "signatures and None defaults included); every import of the stub must succeed; generated class names may collide only where the "
@@ -147,7 +151,8 @@ CHECKS = {
         "Generated signatures with class/generic/Optional/string/NewType annotations on random subsets of positions and None defaults are "
         "traced for real (or through constructed CallTraces with random argument subsets); under REPLICATE, OMIT and IGNORE every parameter and "
         "return position of the rendered stub is compared with the expected annotation (source annotation kept / Optional-wrapped, omitted, "
-        "traced type applied, nothing invented, Iterator/Generator construction for generators).",
+        "traced type applied, nothing invented, Iterator/Generator construction for generators); for the CLI route the expectation is computed "
+        "from the distinct stored rows.",
         "Traced types are shrink_types over the logged traces with rewriting disabled; stub text read by vf/oracle/stubeval.py.",
         "6 C13",
     ),
@@ -178,7 +183,7 @@ CHECKS = {
         "Trace sets from really traced generated modules (wide unions incl. a multiple-inheritance family, TypedDict-worthy dict families) are "
         "stored under permutation, duplication, batch / connection splits and different run dates; `stub` runs in separate interpreters with "
         "PYTHONHASHSEED 0..7 and perturbed memory layout, k in {0,3}, default and no rewriter; imports, classes, definition order and every "
-        "per-position type (unions as sets, TypedDict classes inlined) must be equal across variants.",
+        "per-position type (unions as sets, TypedDict classes inlined) and the shape behind every generated class name must be equal across variants.",
         "Union member order may vary by the statement; trace sets stay below the query limit.",
         "6 C14",
     ),
@@ -188,7 +193,7 @@ CHECKS = {
         "Generated importable sources are traced for real; the stub is applied (apply_stub_using_libcst and the `apply` CLI) for overwrite x k "
         "x confinement: the result must parse, equal the original once annotations / new imports / generated TypedDict classes are erased, "
         "keep every comment and existing annotation (unless overwriting), carry every stub annotation for unannotated positions, be unchanged "
-        "by a second application and re-run its workload with equal results.",
+        "by a second application and re-run its workload with equal results (library result and the file rewritten by the CLI).",
         "libcst's transformation is judged, not assumed; four libcst-rooted defects are recorded as findings.",
         "6 C15",
     ),
@@ -197,7 +202,8 @@ CHECKS = {
         "runtime monitoring: import-placement queries on the AST of the confined result + import/run of the result in a fresh interpreter",
         "The C15 sources with six import styles for modules used at run time; with confinement on, the __future__ import must come first, every "
         "newly introduced non-typing import must sit under `if TYPE_CHECKING:`, every source import must still be at its place, TypedDict must "
-        "stay a run-time import, and the module must import and re-run its workload with equal results.",
+        "stay a run-time import, and the module must import and re-run its workload with equal results; the same for the file rewritten by "
+        "`apply --pep_563`.",
         "typing names are not judged either way; duplicates of imports the source already has are not annotation-only.",
         "6 C16",
     ),
